@@ -4,7 +4,7 @@ import os, sys, subprocess, hashlib, glob, fcntl, time, shutil
 
 VERIF = os.path.dirname(os.path.dirname(os.path.abspath(__file__)))
 REPO = os.environ.get('VERIF_REPO', '/repo')
-BUILD = os.path.join(VERIF, '.build')
+BUILD = os.environ.get('VERIF_BUILD', os.path.join(VERIF, '.build'))
 ENV = dict(os.environ, CARGO_NET_OFFLINE='true')
 
 
@@ -63,8 +63,13 @@ def ensure(log=print, cli=False):
         # the real command-line binary (stable toolchain) for the native differential of C20
         run(['cargo', 'build', '--offline', '--locked', '-p', 'chiritori-cli', '--target-dir', os.path.join(BUILD, 'cli')], cwd=REPO)
         # 2. native observer, both profiles
-        shutil.copy(os.path.join(REPO, 'Cargo.lock'), os.path.join(VERIF, 'native/Cargo.lock'))
-        nat = os.path.join(VERIF, 'native')
+        # the observer crate is instantiated under .build with the repository path in use (VERIF_REPO overrides /repo)
+        nat = os.path.join(BUILD, 'native-src')
+        shutil.rmtree(nat, ignore_errors=True)
+        shutil.copytree(os.path.join(VERIF, 'native'), nat, ignore=shutil.ignore_patterns('Cargo.lock', 'target'))
+        toml = open(os.path.join(nat, 'Cargo.toml')).read().replace('/repo/chiritori', os.path.join(REPO, 'chiritori'))
+        open(os.path.join(nat, 'Cargo.toml'), 'w').write(toml)
+        shutil.copy(os.path.join(REPO, 'Cargo.lock'), os.path.join(nat, 'Cargo.lock'))
         run(['cargo', 'build', '--offline', '--target-dir', os.path.join(BUILD, 'native')], cwd=nat)
         run(['cargo', 'build', '--offline', '--release', '--target-dir', os.path.join(BUILD, 'native')], cwd=nat)
         open(stamp, 'w').write(h)
